@@ -46,6 +46,7 @@ CONSTANTS MaxObj,     \* objects per scenario
           BUG_AdapterRawClose,  \* AsyncAdapter.Close closes the net.Conn's descriptor number itself
           BUG_WsResetLeak,      \* websocket: a second handshake on the same stream forgets the previous net.Conn without closing it
           BUG_ForeignDeregister,\* IO.Deregister clears the entry of the stored number whoever registered there
+          BUG_RepeatRearmsClosed, \* ScheduleRepeating's wrapper arms the timer again although its callback closed it
           BUG_CloseKeepsFd,     \* file.Close returns before closing the descriptor when the poller cannot drop the (write-only) registration
           BUG_EarlyDeregister,  \* completion handlers Deregister although the other direction is parked
           BUG_SocketNonblockLeak, \* internal.socket(): failed SetNonblock returns the fd with an error, callers drop it
@@ -341,6 +342,29 @@ TimerCancel(o) ==
   /\ hist' = Append(hist, Cmd("Cancel", o, ob.kind, "none", "", 1, 0, 0, 0))
   /\ UNCHANGED <<tab, reg, nmade, nplug, iodead, mon>>
 
+\* The callback of a repeating timer closes the timer and creates its successor (which gets the released number,
+\* the lowest free one). ScheduleRepeating's wrapper, which runs after the callback, must leave the closed timer
+\* alone. As found it does; BUG_RepeatRearmsClosed = the wrapper arms the closed timer again - on a number that now
+\* belongs to the successor - so the object counts as open again and its next Close releases a foreign descriptor.
+TimerRepl(o, o2) ==
+  LET ob == objs[o]
+      t1 == CloseNum(tab, ob.fd)
+      t2 == AllocN(t1, 1, o2)
+      nf == CHOOSE f \in Census(t2) \ Census(t1) : TRUE
+      m1 == M!Step(mon, Ev("Close", o, "timer", "none", 1, 1, "", 0, Census(tab), Census(t1), {}, {}))
+      m2 == M!Step(m1, Ev("Ctor", o2, "timer", "none", 1, 0, "", 0, Census(t1), Census(t2), {}, {}))
+  IN
+  /\ ~iodead /\ nmade < MaxObj /\ o2 = nmade + 1
+  /\ ob.st = "live" /\ ob.kind = "timer" /\ ~ob.closed /\ ob.refs /\ ~ob.evr /\ ob.ncl < MaxClose
+  /\ ob.fd >= 0 /\ tab[ob.fd] = o
+  /\ nmade' = o2
+  /\ tab' = t2
+  /\ objs' = [objs EXCEPT ![o].closed = IF BUG_RepeatRearmsClosed THEN FALSE ELSE TRUE, ![o].ncl = @ + 1,
+                          ![o2] = [NoObj EXCEPT !.kind = "timer", !.st = "live", !.refs = TRUE, !.gen = 1, !.fd = nf]]
+  /\ mon' = m2
+  /\ hist' = Append(hist, [Cmd("TimerRepl", o, "timer", "none", "", 1, 1, 1, 0) EXCEPT !.arg = o2])
+  /\ UNCHANGED <<reg, nplug, iodead>>
+
 \* the user closes the net.Conn an adapter wraps (before or after the adapter's Close)
 NetClose(o) ==
   LET ob == objs[o]
@@ -451,6 +475,7 @@ Step ==
              \E f \in ({"none"} \cup (IF WithFail THEN FailPoints(objs[o].kind) \ EmFails(objs[o].kind) ELSE {})) :
                \E a \in Args(f) : Rehandshake(o, f, a)
      \/ \E o \in Objs : DoClose(o) \/ TimerCancel(o) \/ NetClose(o) \/ LayerClose(o)
+     \/ \E o \in Objs, o2 \in Objs : TimerRepl(o, o2)
      \/ \E o \in Objs : \E d \in {"r", "w"} : (~iodead /\ (Park(o, d, 0) \/ Park(o, d, 1) \/ Fire(o, d))) \/ Drop(o, d)
 
 \* a state in which the monitor has rejected is terminal; the rejected script
